@@ -18,6 +18,25 @@ import time
 EPOCH_ORD = datetime.date(1970, 1, 1).toordinal()
 
 
+class NullTZ(datetime.tzinfo):
+    """a tzinfo whose utcoffset() is None: Python defines such a datetime as *naive*"""
+
+    def utcoffset(self, dt):
+        return None
+
+    def tzname(self, dt):
+        return None
+
+    def dst(self, dt):
+        return None
+
+    def __repr__(self):
+        return 'NullTZ()'
+
+
+NULLTZ = NullTZ()
+
+
 class Opaque:
     """Stand-in for 'some arbitrary object' in wrong-type generators."""
 
@@ -50,8 +69,8 @@ def to_json(v):
         off = v.utcoffset()
         return {'$dt': [v.year, v.month, v.day, v.hour, v.minute, v.second,
                         v.microsecond,
-                        None if off is None else
-                        off.days * 86400 + off.seconds]}
+                        ('nulltz' if v.tzinfo is not None else None)
+                        if off is None else off.days * 86400 + off.seconds]}
     if isinstance(v, datetime.date):
         return {'$date': [v.year, v.month, v.day]}
     if isinstance(v, time.struct_time):
@@ -93,8 +112,8 @@ def from_json(j):
             return decimal.Decimal(val)
         if tag == '$dt':
             y, mo, d, h, mi, s, us, off = val
-            tz = None if off is None else datetime.timezone(
-                datetime.timedelta(seconds=off))
+            tz = None if off is None else NULLTZ if off == 'nulltz' else \
+                datetime.timezone(datetime.timedelta(seconds=off))
             return datetime.datetime(y, mo, d, h, mi, s, us, tzinfo=tz)
         if tag == '$date':
             return datetime.date(*val)
